@@ -1,7 +1,7 @@
 (* pyp0f/net/layers/tcp/options.py: TCPOptions.dump; pyp0f/net/quirks.py: dump_quirks;
    pyp0f/database/records_database.py: get_random (label lookup). *)
 From Coq Require Import String.
-From PV Require Import Model.Prelude Model.Bits Model.Text Model.SigParse Model.DbParse.
+From PV Require Import Model.Prelude Model.Bits Model.Sig Model.Text Model.SigParse Model.DbParse.
 Local Open Scope string_scope.
 Local Open Scope Z_scope.
 Local Open Scope list_scope.
@@ -28,3 +28,30 @@ Definition lookup (raw : text) (section : option (list rec)) (pick : nat) : res 
                  | c => match nth_error c pick with Some r => Ok r | None => Err (Crash CIndex) end
                  end
   end.
+
+(* ---- printing a whole TCP signature in the p0f grammar (the inverse of parse_tcp_sig) ---- *)
+Definition print_wild (v : Z) : text := if v =? -1 then str "*" else dec v.
+Definition print_window (s : tcp_sig) : text :=
+  match s_wtype s with
+  | WNormal => dec (s_wsize s)
+  | WAny => str "*"
+  | WMod => str "%" ++ dec (s_wsize s)
+  | WMss => str "mss*" ++ dec (s_wsize s)
+  | WMtu => str "mtu*" ++ dec (s_wsize s)
+  end.
+Definition print_tcp_sig (s : tcp_sig) : text :=
+  join (str ":")
+    [print_wild (s_ver s);
+     dec (s_ttl s) ++ (if s_bad_ttl s then str "-" else []);
+     dec (s_olen s);
+     print_wild (s_mss s);
+     print_window s ++ str "," ++ print_wild (s_wscale s);
+     dump_layout (s_layout s) (s_eol_pad s);
+     dump_quirks (s_quirks s);
+     (if s_pay s =? -1 then str "*" else if s_pay s =? 0 then str "0" else str "+")].
+
+(* the signature one writes down from an observed packet: everything fixed, literal window *)
+Definition sig_of_pkt (p : pkt_sig) : tcp_sig :=
+  {| s_ver := p_ver p; s_olen := p_olen p; s_ttl := p_ttl p; s_bad_ttl := false; s_wtype := WNormal; s_wsize := p_win p;
+     s_wscale := p_ws p; s_layout := p_layout p; s_mss := p_mss p; s_eol_pad := p_eol_pad p; s_pay := b2z (p_payload p);
+     s_quirks := p_quirks p |}.
